@@ -308,8 +308,8 @@ pub fn prop() -> Prop {
         describe,
         rule: "small generated games x a valid named profile (optionally unnormalised by a constant) x 0-4 stream-chosen edits from {reorder, duplicate infoset entry with other weights, duplicate action, drop infoset, empty action list, all zeros, unknown infoset, other player's infoset, unknown action, action of another infoset, special weight in {-1,-0,0,1e-300,1e100,NaN,+-inf,5e-324}, drop action}; oracle: an independent model of the documented rules (entries in order, last write wins) giving Ok(profile) or the set of violated rules' kinds; from_named and from_named_eq must agree exactly. Non-trivial = at least one edit or unnormalised weights; distinct by (tree, input).",
         max_len: 700,
-        cases_quick: 40_000,
-        cases_thorough: 1_500_000,
+        cases_quick: 1_500_000,
+        cases_thorough: 20_000_000,
         assumptions: &["weights within 1e-300 .. 1e100 (no overflow of a sum of weights)", "normalised probabilities compared within 2 ulp"],
         post: None,
         watchdog_s: 60,
